@@ -40,7 +40,7 @@ Theorem create_keeps_capacity : forall opi pod r plan w k, create_hyp w opi r pl
 Proof.
   intros opi pod r plan w k Hhyp Hr Hndp Hok.
   destruct (create_spec opi pod r plan w k Hhyp) as [w' [k' [ms [H P]]]]. rewrite H. cbn [fst].
-  destruct P as [_ _ _ _ _ _ Hpl _ _ Hb].
+  destruct P as [_ _ _ _ _ _ Hpl _ _ _ Hb].
   intros p' Hp'. rewrite Hpl in Hp'. apply in_map_iff in Hp'. destruct Hp' as [x [<- Hx]].
   cbn [add_use p_use p_cap]. unfold radd. cbn [snd]. rewrite scale_snd.
   pose proof (Hok x Hx) as Hux. specialize (Hb (p_node x)).
